@@ -15,6 +15,14 @@ CLAIMED = {
    text="Decides the three obligations of the decomposition in DESIGN §5: (a) reads-frame: every access path SequentialPlanner.Plan reads from the planning context (transitively through the repo) is also read by CachedPlanner.hash, Schema and TypeURLMap excepted; (b) modifies-frame: no function outside package planner stores into a QueryPlan / QueryPlanStep it did not allocate; (c) lock discipline: the two cache maps are read only with the RWMutex held (R or W) and written only with W held, every lock is released on every return path (ghost lock state, path-sensitive defers), plus no-panic obligations and the cached-plan non-nil refinement of Planner.Plan. Interleavings of concurrent requests and the induction over histories are not mechanised.",
    note="Assumed: SHA-1 and the selection-set formatter are injective on what they read; the frame analyses are conservative syntactic dataflows over go/ssa (not SMT); the inner planner does not share the cache; one sequential thread's view of the mutex.",
    ref="DESIGN.md §5 C14", technique="contract-based deductive verification (reads/modifies frame obligations by SSA dataflow, ghost lock state obligations by z3)"),
+ 'C06': dict(
+   text="Deductive proof of the links of the chain that are per-call properties: (1) the operation keyword of a step's query string is the client's operation type exactly for root steps (empty insertion point) and `query` for follow-up steps, pinned at the point where the query string is formatted (SetComputedValues, formatter contracts); (2) executeRequests issues at most one Queryer.Query per service group, a request that is not a de-duplicable follow-up lookup (in particular every root request) gets the private key itoa(index) - never a shared `!`-key - and is recorded exactly in its own entry; (3) MultiOpQueryer.Query partitions its inputs into disjoint chunks that cover them (C11 proof), so each request is in exactly one HTTP call. Routing of root fields to their owner (routeSelectionSet) and 'child steps have non-empty insertion points' (extractSelectionSet) are not under contract; plan caching is covered by C14.",
+   note="Assumed: AsyncMapReduce fold contract; planner functions below SetComputedValues (routeSelectionSet, extractSelectionSet) are not verified; lo.PartitionBy groups by URL; modifies clauses marked assumed in the evidence.",
+   ref="DESIGN.md §5 C06", technique="contract-based deductive verification (loop-entry assertions on formatter state, ghost call counter, key-shape postconditions, z3+cvc5)"),
+ 'C13': dict(
+   text="One order-independence obligation per `range` over a map in non-test code (43 loops, found from the SSA Range instructions), discharged by an iteration contract checked on the real SSA: the body writes only iteration-local state, the footprint of its own key (the entry's value, the outer map/slice at the loop key), or commutative accumulators (set insert, delete, one-constant flags, counters; `append` bags as multisets); early exits must be error exits or be shown unique. GetSameIndexes' early return is proved unique deductively (postcondition `determined` for every iteration order under the injectivity invariant of executeRequests); SetFromSchema by its order-free functional contract. Loops the classifier cannot justify carry an explicit annotation (listed as assumption) or are findings. Goroutine interleavings are not decided.",
+   note="Assumed: distinct map entries do not share the objects reached through their values; bag accumulators are consumed as multisets; the annotated loops (see evidence map_range_loops[].annotation); ScrubFields.Clean across paths is undecided (not claimed).",
+   ref="DESIGN.md §5 C13", technique="contract-based verification: iteration contracts (parallel-loop footprint argument) by SSA dataflow, uniqueness of early exits by SMT (z3)"),
  'C07': dict(
    text="Deductive proof of no-panic (nil, bounds, type assertion, nil-map, division) obligations generated for every instruction of the request-decoding path (Parse, parseRequest, injectFile, IsBatchMode), the handler (queryHandler, its per-operation closure and reducer, Emit, emitError, getQueryers, parseIntrospectionQuery), error formatting and the plan post-processing, for arbitrary request bodies / multipart maps; plus ghost-state postconditions: exactly one status line per request, 422 iff Parse fails, 200 otherwise, invalid operations answered with data:null and >=1 error. Termination (hangs) and panics inside gqlparser / encoding/json / net/http are not decided.",
    note="Assumed: library contracts listed in the evidence (LoadQuery, FormFile, json.Unmarshal, strings.*), callbacks (QueryerFactory) do not modify gateway state, modifies clauses marked assumed; planner internals below SequentialPlanner.Plan and the executor below Executor.Execute are covered only as far as their own contracts (see evidence 'functions_under_contract').",
